@@ -197,7 +197,8 @@ def ctor_sub(chk, rng, w, wid, sym, plan=None):
 MALFORMED_CLASSES = ["non-numeric", "missing-blank", "unknown-symbol",
                      "empty", "symbol-only", "number-only", "zero-division",
                      "double-point", "tab-separator", "other-type-symbol",
-                     "garbage-exponent", "nan", "mutated"]
+                     "garbage-exponent", "nan", "mutated",
+                     "non-decimal-digits"]
 
 
 def malformed_sub(chk, rng, w, wid, sym):
@@ -237,6 +238,11 @@ def malformed_sub(chk, rng, w, wid, sym):
         use_type = True
     elif cls == "garbage-exponent":
         txt = rng.choice(["5e", "e5", "5e+", "1/", "/2", "1/2/3"]) + " " + sym
+    elif cls == "non-decimal-digits":
+        # characters str.isdigit() / isnumeric() accept but no number parser
+        txt = rng.choice(["5\u00b2", "\u00b2", "3\u00b3", "\u2460", "1\u2082",
+                          "\u00b9", "\u00bd", "\u2167", "1\u00b2.5",
+                          "\u0663\u066b\u0665"]) + " " + sym
     elif cls == "nan":
         txt = rng.choice(["nan", "inf", "-inf", "NaN", "Infinity"]) + " " + sym
     else:
